@@ -18,9 +18,9 @@ EXPLANATION = (
     "the not-case-insensitive edge and skips `*`/`?` only on the right literal_separator edge; (LITCHAR) ext, required_ext and basename_tokens send a literal '/' (ext also a second '.') to None on every path, because their strategies compare against a piece of the basename; (MERGE) indices are "
     "sorted and de-duplicated after the strategy loop (the ascending-index contract gitignore relies on); (REGEX) the "
     "glob-to-regex translation has an arm for every token and picks the [^/] forms exactly under literal_separator. "
-    "Per-strategy semantic equivalence with the regex and the trailing-'.' defect are value-level and not decided.")
+    "(BASENAME) pathutil::file_name answers None only for an empty path or after locating the final component (the trailing-'.' defect named by the property was exactly a decision from the last byte alone). Per-strategy semantic equivalence with the regex is value-level and not decided.")
 NOT_DECIDED = ["per-strategy semantic equivalence with the regex translation", "single-glob meaning",
-               "names ending in '.' (pathutil::file_name), a known behavioural defect not visible structurally"]
+]
 
 G = "globset"
 GS = G + "::GlobSet"
@@ -36,6 +36,51 @@ STRATS = {"Literal": "LiteralStrategy", "BasenameLiteral": "BasenameLiteralStrat
 
 def locals_in(e):
     return {x[1] for x in walk(e) if x.k in ("phi", "local")}
+
+
+def basename_rule(ctx, r, fnpath=None, key="basename", candidate=True):
+    """Candidate's basename: pathutil::file_name may answer None (no basename ⇒ every basename-scoped strategy stays
+    silent while the glob's regex still sees the '.' as a literal) only for an empty path, or after it has located the
+    final component. Deciding from the last byte alone drops every name that merely ends in '.'."""
+    facts = ctx.facts
+    f = facts.fn(fnpath or (G + "::pathutil::file_name"))
+    eb = ExprBuilder(f)
+    nones = [bb for bb, j, st in f.stmts() if st["k"] == "assign" and st["place"]["l"] == 0 and not st["place"]["p"] and
+             st["rv"]["k"] == "agg" and st["rv"].get("variant") == "None"]
+    seps = [c for c in f.calls() if c.path.split("::")[-1] in ("rfind_byte", "rfind", "memrchr", "rsplit", "rsplitn", "rsplit_once",
+                                                                "rfind_char", "rposition")]
+
+    def emptiness(e):
+        if is_call(e, "[T]::is_empty", "alloc::vec::Vec::is_empty", "str::is_empty", "core::option::Option::is_none"):
+            return not any(x.k == "closure" for x in walk(e))
+        return e.k == "bin" and e[1] == "Eq" and any(x.k == "len" or is_call(x, "[T]::len") for x in walk(e)) and \
+            any(W.const_val(a) == 0 for a in (e[2], e[3]))
+    emp = cond_switches(f, emptiness, eb)
+    if not nones:
+        r.ok(key + "|none", "file_name never answers None", fn=f)
+        return
+    verdicts = []
+    for nb in nones:
+        if emp and not guarded(f, [nb], emp, True):
+            verdicts.append("empty")
+        elif any(C.dominates(f, c.bb, nb) for c in seps):
+            verdicts.append("located")
+        else:
+            verdicts.append(None)
+    if None in verdicts:
+        r.bad(key + "|none", "%s answers None without locating the final component (it looks at the last byte(s) only): a "
+              "path whose name merely ends in '.' gets no file name%s" % (f.path, ", so the basename-literal, extension and "
+              "required-extension strategies of a set stay silent where the member glob matches" if candidate else
+              ": is_hidden answers false for '.x.' and file-type globs never see the name"), fn=f, construct="file_name")
+    else:
+        r.ok(key + "|none", "None only for an empty path or after the final component was located (%s)" % ", ".join(verdicts), fn=f)
+    if not candidate:
+        return
+    cn = facts.fn(CAND + "::new")
+    if cn.calls_to(G + "::pathutil::file_name"):
+        r.ok("basename|candidate", "Candidate::new takes its basename from pathutil::file_name", fn=cn, nontrivial=False)
+    else:
+        r.bad("basename|candidate", "Candidate::new no longer derives the basename with pathutil::file_name", fn=cn)
 
 
 def run(ctx):
@@ -288,6 +333,9 @@ def run(ctx):
                 else:
                     r.ok(key, "Literal(%r) ⇒ None on every path (%d test(s))" % (ch, len(in_loop)), fn=f)
 
+    with ctx.rule("C12.BASENAME", "a path gets no basename only when it is empty or its final component was examined", floor=2,
+                  kind="GUARD") as r:
+        basename_rule(ctx, r)
     with ctx.rule("C12.MERGE", "indices sorted and de-duplicated after the strategy loop", floor=1, kind="PASS") as r:
         f = facts.fn(GS + "::matches_candidate_into")
         mi = f.calls_to(GSM + "::matches_into")
